@@ -1677,10 +1677,17 @@ impl<'de, 'e> de::Deserializer<'de> for YamlDeserializer<'de, 'e> {
                 visitor.visit_none()
             }
 
-            // YAML null forms as scalars → None
+            // YAML null forms as scalars → None. A scalar that says it is a string (`!!str null`) or
+            // is written as a block scalar (an empty `|-`) is a value, as it is for `String`.
             Some(Ev::Scalar {
-                value: s, style, ..
-            }) if scalar_is_nullish_for_option(s, style) => {
+                value: s,
+                style,
+                tag,
+                ..
+            }) if tag != &SfTag::String
+                && !matches!(style, ScalarStyle::Literal | ScalarStyle::Folded)
+                && scalar_is_nullish_for_option(s, style) =>
+            {
                 let _ = self.ev.next()?; // consume the scalar
                 visitor.visit_none()
             }
